@@ -14,6 +14,7 @@ harness:
 	cd harness && go build -tags verif -o ../.work/harness-verif .
 	./.work/harness-verif consts > coq/gen/Extracted.v.new && mv coq/gen/Extracted.v.new coq/gen/Extracted.v
 	./.work/harness-verif translate > coq/gen/Translated.v.new && mv coq/gen/Translated.v.new coq/gen/Translated.v
+	./.work/harness-verif translate2 > coq/gen/Translated2.v.new && mv coq/gen/Translated2.v.new coq/gen/Translated2.v
 
 coq: harness
 	sh tools/mkcoqproject.sh
